@@ -16,15 +16,27 @@ AQA_QUERY = "ite(%s and %s[1] != '', %s[1] + ('&' + %s), %s)" % (AQA_HASQ, AQA_S
 AQA_HEAD = "%s + ('?' + %s)" % (AQA_U2, AQA_QUERY)
 AQA_RESULT = "result == ite(%s, %s + ('#' + %s[1]), %s)" % (AQA_HASF, AQA_HEAD, AQA_S1, AQA_HEAD)
 
+PUNY_ELEMS = ("forall('m', implies(0 <= m and m < len(parts), parts[m] == ite(g_L[m][:4].lower() == 'xn--', "
+              "uf('attempt_to_decode_idna', 'Str', g_L[m][:4].lower() + g_L[m][4:]), g_L[m])), parts[m])")
+# safe_qsl_iter: one pair per '&'-separated item, in order; an item without '=' is a bare name, otherwise it is cut at its FIRST '=' and nothing is lost
+QSL_ELEMS = ("forall('m', implies(0 <= m and m < len(result), ite('=' not in g_P[m], result[m][0] == g_P[m] and result[m][1] is None, "
+             "result[m][1] is not None and g_P[m] == result[m][0] + '=' + some(result[m][1]) and '=' not in result[m][0])), result[m])")
+GQA_O = "uf('urlsplit', 'Obj', ite(uf('re_match', 'Opt[Obj]', PROTOCOL_RE, url) is not None, url, 'http://' + url))"
+GQA_ITEMS = "uf('safe_qsl_iter', 'Seq[Tuple[Str,Opt[Str]]]', %s.query)" % GQA_O
+GQA_MATCH = "(key == g_Q[%s][0] or key == uf('unquote', 'Str', g_Q[%s][0]))"
+GQA_NONE = "forall('m', implies(0 <= m and m < %s, not " + (GQA_MATCH % ("m", "m")) + "), g_Q[m])"
+
 MODULE = {
     "file": "ural/utils.py",
-    "bound": {"m": "Int"},
+    "bound": {"m": "Int", "j": "Int"},
     "consts": {"SLASH_SQUEEZE_RE": ("Opaque", "Obj"), "PROTOCOL_RE": ("Opaque", "Obj")},
-    "obj_attrs": {"path": "Str"},
+    "obj_attrs": {"path": "Str", "query": "Str"},
     "library": {
         "unshadowed_quote": {"params": ["string"], "types": {"string": "Str"}, "returns": "Str", "ensures": ["result == uf('quote', 'Str', string)"]},
         "re.match": {"params": ["pattern", "string"], "types": {"pattern": "Obj", "string": "Str"}, "returns": "Opt[Obj]", "result_meta": {"always_truthy": True},
                      "ensures": ["result == uf('re_match', 'Opt[Obj]', pattern, string)"]},
+        "unquote": {"params": ["string"], "types": {"string": "Str"}, "returns": "Str", "ensures": ["result == uf('unquote', 'Str', string)"]},
+        "attempt_to_decode_idna": {"params": ["string"], "types": {"string": "Str"}, "returns": "Str", "ensures": ["result == uf('attempt_to_decode_idna', 'Str', string)"]},
         "urlsplit": {"params": ["url"], "types": {"url": "Str"}, "returns": "Obj", "raises": {"ValueError": None}, "ensures": ["result == uf('urlsplit', 'Obj', url)"]},
         "Obj.sub": {"params": ["repl", "string"], "receiver": "pattern", "types": {"pattern": "Obj", "repl": "Str", "string": "Str"},
                     "returns": "Str", "ensures": ["result == uf('re_sub', 'Str', pattern, repl, string)"]},
@@ -67,6 +79,34 @@ MODULE = {
             "types": {"url": "Str", "parsed": "Obj"}, "returns": "Seq[Str]", "raises": {"ValueError": None},
             # the segments of the path the standard parser sees once a scheme is ensured
             "ensures": ["result == uf('pathsplit', 'Seq[Str]', uf('urlsplit', 'Obj', ite(uf('re_match', 'Opt[Obj]', PROTOCOL_RE, url) is not None, url, 'http://' + url)).path)"],
+        },
+        "decode_punycode_hostname": {
+            "types": {"hostname": "Str", "as_parts": "Bool", "parts": "Seq[Str]", "part": "Str", "puny_header": "Str", "g_i": "Int", "g_L": "Seq[Str]"},
+            "returns": "Obj",
+            "loops": {1: {"index": "g_i", "seq": "g_L", "invariant": ["len(parts) == g_i", PUNY_ELEMS]}},
+            # label by label, in order: only a label that starts with 'xn--' (any case) is touched, and it is handed to the idna codec with its header lower-cased
+            "ensures": ["g_L == old(hostname).split('.')", "len(parts) == len(g_L)", PUNY_ELEMS,
+                        "implies(as_parts, result == obj(parts))", "implies(not as_parts, result == obj('.'.join(parts)))"],
+        },
+        "safe_qsl_iter": {
+            "types": {"query": "Str", "item": "Str", "g_i": "Int", "g_P": "Seq[Str]"},
+            "yields": "Tuple[Str,Opt[Str]]", "returns": "Seq[Tuple[Str,Opt[Str]]]",
+            "loops": {1: {"index": "g_i", "seq": "g_P", "invariant": ["len(g_yielded) == g_i", QSL_ELEMS.replace("result", "g_yielded")]}},
+            "ensures": ["len(result) == len(old(query).split('&'))", QSL_ELEMS.replace("g_P", "old(query).split('&')")],
+            # naming of the (deterministic) result for callers
+            "assumed_ensures": ["result == uf('safe_qsl_iter', 'Seq[Tuple[Str,Opt[Str]]]', old(query))"],
+        },
+        "get_query_argument": {
+            "types": {"url": "Str", "key": "Str", "o": "Obj", "q": "Tuple[Str,Opt[Str]]", "g_i": "Int", "g_Q": "Seq[Tuple[Str,Opt[Str]]]"},
+            "returns": "Val", "raises": {"ValueError": None},
+            "loops": {1: {"index": "g_i", "seq": "g_Q", "invariant": [GQA_NONE % "g_i"]}},
+            "ensures": [
+                # the FIRST item whose name is the key (as written or unquoted) answers: its value, True for a bare name; None when there is none
+                "implies(truthy(%s.query), g_Q == %s)" % (GQA_O, GQA_ITEMS),
+                "implies(result is None, not truthy(%s.query) or %s)" % (GQA_O, GQA_NONE % "len(g_Q)"),
+                "implies(result is not None, truthy(%s.query) and exists('j', 0 <= j and j < len(g_Q) and %s and %s"
+                " and result == ite(g_Q[j][1] is None, val(True), val(some(g_Q[j][1]))), g_Q[j]))" % (GQA_O, GQA_MATCH % ("j", "j"), GQA_NONE % "j"),
+            ],
         },
         "pathsplit": {
             "types": {"urlpath": "Str"}, "returns": "Seq[Str]",
